@@ -134,16 +134,72 @@ def lidx(name):
     return [l[0] for l in LEAVES].index(name)
 
 
-def compose(c1, c2, l1, l2, l3=None, attr_on=None):
-    """c1( c2( l1 ) l2 ) [blank line l3]; attr_on in (None, 1, 2): which container carries the placeholder attributes"""
+def compose(c1, c2, l1, l2, l3=None, attr_on=None, l1_text=None):
+    """c1( c2( l1 ) l2 ) [blank line l3]; attr_on in (None, 1, 2): which container carries the placeholder attributes;
+    l1_text replaces the first leaf by generated markup (sized leaves)"""
     _, o1, e1 = CONTAINERS[c1]
     _, o2, e2 = CONTAINERS[c2]
     o1 = o1.replace("ATTR", ATTR_PLACEHOLDER if attr_on == 1 else "")
     o2 = o2.replace("ATTR", ATTR_PLACEHOLDER if attr_on == 2 else "")
-    doc = o1 + o2 + LEAVES[l1][1] + e2 + (" " + LEAVES[l2][1] if l2 is not None else "") + e1
+    doc = o1 + o2 + (LEAVES[l1][1] if l1_text is None else l1_text) + e2 + (" " + LEAVES[l2][1] if l2 is not None else "") + e1
     if l3 is not None:
         doc += "\n\n" + LEAVES[l3][1]
     return doc.replace(" >", ">").replace("{| \n", "{|\n").replace("|- \n", "|-\n")
+
+
+# ---------------------------------------------------------------------------- sized leaves (size heuristics of the cleaner)
+
+_SIZED = []
+
+
+def harvest_thresholds():
+    """Integer constants (>= 15) that the cleaner compares sizes with, from the current source of treecleaner / treecleanerhelper."""
+    import inspect
+
+    from mwlib.parser import treecleaner, treecleanerhelper
+
+    vals = set()
+    for m in (treecleaner, treecleanerhelper):
+        for mo in re.finditer(r"(?:[<>]=?|==)\s*(\d{2,5})\b", inspect.getsource(m)):
+            v = int(mo.group(1))
+            if v >= 15:
+                vals.add(v)
+    return sorted(vals)
+
+
+def words_of_length(n):
+    out = []
+    i = 0
+    total = 0
+    while total < n:
+        w = "w%d" % i
+        out.append(w)
+        total += len(w) + 1
+        i += 1
+    return " ".join(out)[:n].rstrip() or "w"
+
+
+def sized_leaves():
+    """[(name, markup)]: for every size threshold T of the cleaner a text of T+1 characters (thresholds >= 80), and tables /
+    lists whose row, column, cell or item count is T+1 (thresholds <= 40; 200 cells for the cell-count threshold)"""
+    if _SIZED:
+        return _SIZED
+    ths = harvest_thresholds()
+    for t in ths:
+        if t >= 80:
+            _SIZED.append(("text%d" % (t + 1), words_of_length(t + 1)))
+    for t in ths:
+        if t <= 40:
+            n = t + 1
+            _SIZED.append(("rows%d" % n, "\n{|\n" + "|-\n".join("| r%d\n" % i for i in range(n)) + "|}\n"))
+            _SIZED.append(("cols%d" % n, "\n{|\n| " + " || ".join("c%d" % i for i in range(n)) + "\n|}\n"))
+            _SIZED.append(("items%d" % n, "\n" + "".join("* i%d\n" % i for i in range(n))))
+    if any(150 <= t <= 400 for t in ths):
+        t = [t for t in ths if 150 <= t <= 400][0]
+        cols = 15
+        rows = t // cols + 1
+        _SIZED.append(("cells%d" % (rows * cols), "\n{|\n" + "|-\n".join("| " + " || ".join("x" for _ in range(cols)) + "\n" for _ in range(rows)) + "|}\n"))
+    return _SIZED
 
 
 # ---------------------------------------------------------------------------- untraced helpers
@@ -416,6 +472,20 @@ def h_shape(l1: int, l2: int, c1: int, c2: int, props: tuple, nl: int = 0):
     v = untraced(run_passes, tree, props)  # nothing symbolic flows into the passes here: the solver enumerates the documents
     if v is not None:
         v["markup"] = markup
+    return v
+
+
+def h_sized(sidx: int, l2: int, c1: int, c2: int, props: tuple, l2set: tuple = ()):
+    """document c1(c2(SIZED) l2): the first leaf is a text / table / list just above one of the cleaner's size thresholds"""
+    sized = sized_leaves()
+    name, text = sized[choose(sidx, len(sized))]
+    l2set = tuple(l2set) or tuple(range(len(LEAVES)))
+    markup = compose(c1, c2, None, l2set[choose(l2, len(l2set))], l1_text=text)
+    tree = build_tree(markup)
+    v = untraced(run_passes, tree, props)
+    if v is not None:
+        v["markup"] = markup
+        v["sized"] = name
     return v
 
 
